@@ -187,6 +187,19 @@ Definition s_less_equal (a b : str) : bool := negb (s_greater a b).
 Definition s_greater_equal (a b : str) : bool := negb (s_less a b).
 Definition s_not_equal (a b : str) : bool := negb (s_equal a b).
 
+(* core/types/compare parse_op: the operator name, lower-cased (ASCII) *)
+Definition parse_cmp_op (name : str) : option (str -> str -> bool) :=
+  let n := map to_lower_c name in
+  let is (w : list Z) := list_eqb Z.eqb n w in
+  if is [61;61]%Z || is [101;113;117;97;108;115]%Z then Some s_equal
+  else if is [33;61]%Z || is [110;111;116;95;101;113;117;97;108;115]%Z then Some s_not_equal
+  else if is [62]%Z || is [103;114;101;97;116;101;114]%Z then Some s_greater
+  else if is [60]%Z || is [108;101;115;115]%Z then Some s_less
+  else if is [62;61]%Z || is [103;114;101;97;116;101;114;95;101;113;117;97;108]%Z then Some s_greater_equal
+  else if is [60;61]%Z || is [108;101;115;115;95;101;113;117;97;108]%Z then Some s_less_equal
+  else None.
+
+
 (* character-class tests *)
 Definition nonempty_all (p : Z -> bool) (a : str) : bool := negb (length a =? 0) && forallb p a.
 Definition s_is_lower (a : str) : bool := let f := filter is_alpha_c a in negb (length f =? 0) && forallb is_lower_c f.
